@@ -52,6 +52,14 @@ def hp_chunk(alphabet, length, first):
                       want=mpt.hp(ns, term))
             if dec != arg:
                 a.bad("hp_roundtrip", "decode_nibbles(encode_nibbles(x)) != x (sequence or flag lost)", nibbles=ns, terminator=term, got=dec)
+            # the same sequence handed over as a list (any sequence type is a nibble sequence)
+            try:
+                if encode_nibbles(list(arg)) != enc:
+                    a.bad("hp_encode_wrong", "encode_nibbles of a list differs from the tuple form", nibbles=ns, terminator=term, form="list")
+                if (compute_leaf_key(list(ns)) if term else compute_extension_key(list(ns))) != enc:
+                    a.bad("compute_key_wrong", "compute_*_key of a list differs from HP", nibbles=ns, terminator=term, form="list")
+            except Exception as e:  # noqa
+                a.bad("hp_raised", f"encode_nibbles / compute_*_key raised {type(e).__name__} for a list input", nibbles=ns, terminator=term, form="list")
             # a node written with that path classifies and yields it back
             key = compute_leaf_key(ns) if term else compute_extension_key(ns)
             if key != enc:
